@@ -285,6 +285,8 @@ func strPath(prefix string, i, p int) string {
 }
 
 type kFloat struct{ F float64 }
+type kPtrBox struct{ P *int }
+type kThreeBytes struct{ A, B, C uint8 }
 
 // heap / array laundering so that the key is not built in place from constants
 var c18Sink []any
@@ -307,7 +309,7 @@ func runC18(r *Run) {
 		n = v
 	}
 	cs := func(t string, pad bool) c18Case {
-		return c18Case{Type: t, Padding: pad, N: n, Persist: !strings.HasPrefix(t, "*") && !strings.Contains(t, "interface")}
+		return c18Case{Type: t, Padding: pad, N: n, Persist: !strings.Contains(t, "*") && !strings.Contains(t, "interface")} // (a pointer does not survive a round trip as the same key)
 	}
 	// integers of every width, zero and extreme values included (i=0 => zero value)
 	c18Run[int](r, cs("int", false), func(i, p int) int { return launder(i*i + i + (p - p)) }, nil, true)
@@ -328,6 +330,24 @@ func runC18(r *Run) {
 		objs[i] = new(int)
 	}
 	c18Run[*int](r, cs("*int", false), func(i, p int) *int { return launder(objs[i]) }, nil, true)
+	// the object a pointer key points to changes between the operations (the key is the address, not the contents),
+	// also for pointer-shaped structs and arrays
+	objs2 := make([]*int, n+n/4+16)
+	for i := range objs2 {
+		objs2[i] = new(int)
+	}
+	c18Run[*int](r, cs("*int (pointee rewritten between operations)", false), func(i, p int) *int { *objs2[i] = p*1000003 + i; return launder(objs2[i]) }, nil, true)
+	c18Run[kPtrBox](r, cs("struct{*int} (pointee rewritten between operations)", false), func(i, p int) kPtrBox { *objs2[i] = p*7777 - i; return launder(kPtrBox{objs2[i]}) }, nil, true)
+	c18Run[[1]*int](r, cs("[1]*int (pointee rewritten between operations)", false), func(i, p int) [1]*int { *objs2[i] = p ^ i; return launder([1]*int{objs2[i]}) }, nil, true)
+	// sizes that are not a power of two and below a machine word
+	c18Run[[3]byte](r, cs("[3]byte", false), func(i, p int) [3]byte { return launder([3]byte{byte(i), byte(i >> 8), byte(i >> 16)}) }, nil, true)
+	c18Run[[5]byte](r, cs("[5]byte", false), func(i, p int) [5]byte { return launder([5]byte{byte(i), byte(i >> 8), byte(i >> 16), 0xA5, byte(i)}) }, nil, true)
+	c18Run[[7]byte](r, cs("[7]byte", false), func(i, p int) [7]byte { return launder([7]byte{1, byte(i), 2, byte(i >> 8), 3, byte(i >> 16), 4}) }, nil, true)
+	c18Run[[3]uint16](r, cs("[3]uint16", false), func(i, p int) [3]uint16 { return launder([3]uint16{uint16(i), uint16(i >> 16), 7}) }, nil, true)
+	c18Run[kThreeBytes](r, cs("struct{uint8;uint8;uint8}", false), func(i, p int) kThreeBytes { return launder(kThreeBytes{uint8(i), uint8(i >> 8), uint8(i >> 16)}) }, nil, true)
+	c18Run[[11]byte](r, cs("[11]byte", false), func(i, p int) [11]byte {
+		return launder([11]byte{byte(i), byte(i >> 8), byte(i >> 16), 9, 9, 9, 9, 9, 9, 9, byte(i)})
+	}, nil, true)
 	// strings with different backing arrays per path
 	c18Run[string](r, cs("string", false), func(i, p int) string {
 		switch p {
